@@ -16,12 +16,14 @@ RULES = {
     "name authority itself",
     "R2": "guarded generation: each generator returns a name only after a non-membership test against its registry and "
     "advances its counter on every iteration; each register_or_name_* assigns a name only when it is None and adds the "
-    "final name on every path",
+    "final name on every path"
+    "  (an early return is accepted only under `not name.startswith(K)` with K a constant prefix of the generated format)",
     "R3": "every Graph method that links nodes goes through _set_node_graph_to_self_and_assign_names, which registers the "
     "node and each of its outputs before adopting the node",
     "R4": "bulk rename is atomic: rename_values has no write before its last feasible rejection (C06 analysis)",
     "R5": "NameFixPass: scope stacks are pushed and popped together; every rename takes its name from "
-    "_find_and_record_next_unique_name, whose loop exits only on non-membership and which records the result",
+    "_find_and_record_next_unique_name, whose loop exits only on non-membership and which records the result"
+    " ; the call that fixes a graph-like is never a short-circuited operand (every function is visited)",
 }
 FLOORS = {"R1": 6, "R2": 6, "R3": 5, "R4": 1, "R5": 8}
 EXPLANATION = (
